@@ -438,6 +438,29 @@ func RunC14(e *core.Env) int {
 	finish := func(c *c14Case) {
 		oc := judgeC14(rep, c)
 		s := c.S
+		// a run that is rejected must not "succeed" silently under -dry: with -dry -print, exit 0 means the
+		// code that would have been written is on stdout - with a function for every converter method
+		if c.Run.Exit == 1 && c.Argv == "setup.go" && !c.Run.TimedOut && core.Rand(e.Seed, "c14-dry", s.ID).Intn(4) == 0 {
+			r2 := e.Run(core.RunSpec{Args: []string{"-dry", "-print", "setup.go"}, Dir: c.Dir, WallSec: c14WallSec})
+			rep.Count("rejected_inputs_rerun_with_dry_print", 1)
+			if r2.Exit == 0 && !r2.TimedOut {
+				want, ok := c14Expected(s.Files[s.Setup])
+				got, perr := c14Funcs([]byte(r2.Stdout))
+				var missing []string
+				if ok && perr == nil {
+					for _, w := range want {
+						if got[w] == 0 {
+							missing = append(missing, w)
+						}
+					}
+				}
+				if !ok || perr != nil || len(missing) > 0 || len(want) == 0 {
+					rep.Violate(&core.Violation{Property: "C14", Monitor: "dry-run", Symptom: "dry-run-reports-success-for-rejected-input", Features: map[string]string{"group": s.Features["group"]}, Case: s.ID,
+						Detail: fmt.Sprintf("'convergen setup.go' exits 1 (%s) but 'convergen -dry -print setup.go' exits 0; printed code parse error: %v; methods without printed function: %v; stderr of the dry run: %q",
+							core.Trunc(c14FirstDiag(c.Run.Stderr), 200), perr, missing, core.Trunc(r2.Stderr, 200)), Files: c.replay()})
+				}
+			}
+		}
 		if dump != nil {
 			fmt.Fprintf(dump, "%s\t%s\t%s\texit=%d\tcpu=%dms\t%s\n", s.ID, s.InjectClass, oc, c.Run.Exit, c.Run.CPU.Milliseconds(), core.Trunc(c14FirstDiag(c.Run.Stderr), 160))
 		}
